@@ -784,6 +784,25 @@ func ruleHardLimitGuard(c *eng.Ctx) {
 		}
 	}
 	if search == nil {
+		// the search may be the inner part of FindSplitPointAt, called with the position computed once: a method of the
+		// calculator that FindSplitPointAt itself forwards to
+		if fsp := c.P.Func("rag.(*SizeCalculator).FindSplitPointAt"); fsp != nil {
+			inner := map[*ssa.Function]bool{}
+			for _, ci := range eng.Calls(fsp, false, func(string, ssa.CallInstruction) bool { return true }) {
+				if g := eng.StaticCallee(ci); g != nil && g.Pkg == fsp.Pkg && g.Signature.Recv() != nil {
+					inner[g] = true
+				}
+			}
+			for _, h := range hosts {
+				for _, ci := range eng.Calls(h, false, func(string, ssa.CallInstruction) bool { return true }) {
+					if call, ok := ci.(*ssa.Call); ok && search == nil && inner[eng.StaticCallee(ci)] && strings.Contains(strings.ToLower(eng.StaticCallee(ci).Name()), "split") {
+						search, fn = call, h
+					}
+				}
+			}
+		}
+	}
+	if search == nil {
 		c.Undec(R, "rag.(*SizeCalculator).SplitToSize#search", fn.Pos(), "no call of FindSplitPointAt")
 		return
 	}
